@@ -271,9 +271,9 @@ Definition scdom_of (f : string) : val -> val -> bool :=
   both_num.
 
 Definition via_vec2 (f : string) : bool :=
-  (fis f "eval_dyad_integer_divide") || (fis f "eval_dyad_less") || (fis f "eval_dyad_more") || (fis f "eval_dyad_equal").
-Definition no_object_loop (f : string) : bool :=
+  (fis f "eval_dyad_integer_divide") || (fis f "eval_dyad_less") || (fis f "eval_dyad_more") || (fis f "eval_dyad_equal") ||
   (fis f "eval_dyad_minimum") || (fis f "eval_dyad_maximum") || (fis f "eval_dyad_remainder").
+Definition no_object_loop (f : string) : bool := false.
 
 Definition is_list_or_str (b : val) : bool := match b with VL _ | VS _ => true | _ => false end.
 Definition sizes_ok (a : val) : bool :=
@@ -463,7 +463,7 @@ Definition k_dyad (f : string) (a b : val) : string :=
       else (if kb_np a b then "broadcast" else "")
   | None =>
   if fis f "eval_dyad_take" then
-    (match a with VI n => if ndim_gt1 b && ((zlen (members b) <? Z.abs n) || (array_size b =? 0)) then "take-matrix" else "" | _ => "" end) else
+    "" else
   if fis f "eval_dyad_rotate" then
     (if ndim_gt1 b && negb rotate_uses_axis0 then "rotate-matrix" else "") else
   if fis f "eval_dyad_split" then
@@ -480,41 +480,24 @@ Definition k_dyad (f : string) (a b : val) : string :=
   if fis f "eval_dyad_find" then
     (match a, b with
      | VL l, VL _ => ""
-     | VL l, _ => if (1 <? npdepth a)%nat || existsb is_arr l then "find-nested"
-                  else if existsb (fun x => match x, b with VY _, VY _ => s_same x b | _, _ => false end) l then "find-symbol" else ""
+     | VL l, _ => ""
      | _, _ => "" end) else
   if fis f "eval_dyad_reshape" then
     (match b with
      | VY _ => if reshape_guards_symbols then "" else "reshape-symbol"
-     | VC _ => (match a with VI 0 => "reshape-char-0" | _ => "" end)
+     | VC _ => ""
      | VL l => if existsb is_arr l then "reshape-nested" else ""
      | _ => "" end) else
   ""
   end.
 
 (* ------------------------------------------------------------------ monads *)
-(* Floor: an integer when the floored value fits the integer range, otherwise the (already integral) real *)
-Definition floor_fits (v : val) : bool :=
-  match v with
-  | VI _ => true
-  | VR r => match rfloor_exact r with Some z => (- two63 <=? z) && (z <? two63) | None => false end
-  | _ => false
-  end.
-Definition s_floor (a : val) : res :=
-  match a with
-  | VI x => Ok (VI x)
-  | VR r => match rfloor_exact r with
-            | Some z => if (- two63 <=? z) && (z <? two63) then Ok (VI z) else Ok (VR r)
-            | None => Err
-            end
-  | _ => Unmod
-  end.
-
 (* Shape: 0 for atoms (also [] and ""), ,#S for a string, and for a list #L followed by the common shape of its
    members when they are all lists / strings of one shape (row-major); otherwise the list is a vector *)
 Fixpoint s_shape_of (v : val) : list Z :=
   match v with
-  | VS (c :: s) => [zlen (c :: s)]
+  | VS s => [zlen s]
+  | VL [] => [0]
   | VL (x :: r) =>
       let shapes := map s_shape_of (x :: r) in
       let sh := hd [] shapes in
@@ -522,7 +505,11 @@ Fixpoint s_shape_of (v : val) : list Z :=
   | _ => []
   end.
 Definition s_shape (a : val) : val :=
-  match s_shape_of a with [] => VI 0 | sh => VL (map VI sh) end.
+  match a with
+  | VS [] | VL [] => VI 0
+  | VS _ | VL _ => VL (map VI (s_shape_of a))
+  | _ => VI 0
+  end.
 
 Fixpoint has_strlike_atom_member (v : val) : bool :=
   match v with
@@ -558,7 +545,7 @@ Definition s_monad (f : string) (a : val) : res :=
      | _ => Err end) else
   if fis f "eval_monad_first" then
     (match a with VL (x :: _) => Ok x | VS (c :: _) => Ok (VC c) | _ => Ok a end) else
-  if fis f "eval_monad_floor" then s1 s_floor a else
+  if fis f "eval_monad_floor" then s1 sc_floor a else
   if fis f "eval_monad_list" then (match a with VC c => Ok (VS [c]) | _ => Ok (VL [a]) end) else
   if fis f "eval_monad_negate" then s1 sc_neg a else
   if fis f "eval_monad_reciprocal" then (if negb (is_arr a) && is_zero a then Ok VU else s1 sc_recip a) else
@@ -619,32 +606,21 @@ Definition dom_monad (f : string) (a : val) : bool :=
   if fis f "eval_monad_grade_up" then (match a with VS _ => true | VL _ => is_num_vector a | _ => false end) else
   if fis f "eval_monad_grade_down" then
     (match a with VS s => no_dups Z.eqb s | VL l => is_num_vector a && no_dups num_eqb l | _ => false end) else
-  if fis f "eval_monad_groupby" then (match a with VS _ => true | VL l => forallb (fun x => negb (is_arr x)) l | _ => false end) else
+  if fis f "eval_monad_groupby" then
+    (match a with
+     | VS _ => true
+     | VL l => forallb (fun x => forallb (fun y => (match_kinds_ok x y || negb (is_strlike x && is_strlike y)) && negb (k_close x y)) l) l
+     | _ => false end) else
   if fis f "eval_monad_range" then (match a with VS _ | VL _ => true | _ => false end) else
   false.
 
 Definition k_monad (f : string) (a : val) : string :=
   if negb (is_normal a) then "homogenise" else
-  if fis f "eval_monad_first" then (match a with VS (_ :: _) => "first-of-string" | _ => "" end) else
-  if fis f "eval_monad_char" then (if has_empty_list a then "char-of-empty" else "") else
-  if fis f "eval_monad_expand_where" then (match a with VL [] => "expand-empty" | _ => "" end) else
-  if fis f "eval_monad_floor" then (if all_leaves floor_fits a then "" else "floor-overflow") else
+  if fis f "eval_monad_floor" then (if negb (res_normal (s_monad f a)) then "homogenise" else "") else
   if fis f "eval_monad_reverse" then (if negb reverse_guards_atoms && negb (is_list_or_str a) then "reverse-atom" else "") else
   if fis f "eval_monad_list" then (if negb (res_normal (s_monad f a)) then "homogenise" else "") else
-  if fis f "eval_monad_shape" then
-    (match a with
-     | VL (_ :: _) => (match ashape a with Ok _ => if has_strlike_atom_member a then "shape-strlike-member" else "" | _ => "shape-ragged" end)
-     | _ => "" end) else
-  if fis f "eval_monad_groupby" then
-    (match a with
-     | VS s => if list_eqb Z.eqb (dedup_by Z.eqb [] s) (dedup_sorted Z.eqb (map fst (sort_by Z.leb (with_index s)))) then "" else "group-sorted-order"
-     | VL l => if is_num_vector a
-               then (if list_eqb num_eqb (dedup_by num_eqb [] l) (dedup_sorted num_eqb (map fst (sort_by num_leb (with_index l)))) then "" else "group-sorted-order")
-               else "group-non-numeric"
-     | _ => "" end) else
   if fis f "eval_monad_range" then
     (match a with
-     | VS s => if list_eqb Z.eqb (dedup_by Z.eqb [] s) (dedup_sorted Z.eqb (map fst (sort_by Z.leb (with_index s)))) then "" else "range-string-sorted"
      | VL l => if negb (res_normal (s_monad f a)) then "homogenise" else ""
      | _ => "" end) else
   "".
